@@ -121,7 +121,7 @@ func (m *model) add(raw json.RawMessage, exhaustive bool) {
 	}
 }
 
-var cheap = []string{"pipeline", "rebind", "privsel", "counter", "host"}
+var cheap = []string{"pipeline", "rebind", "iface", "privsel", "counter", "host"}
 var costly = []string{"pool", "drain", "prodcons", "interps"}
 
 // exhaustive model checking of the families; returns per-run statistics
@@ -312,10 +312,13 @@ func realInstances(c *fw.Ctx) []inst {
 		}
 		for form := 0; form <= 3; form++ {
 			r = append(r, inst{"rebind", n, form, 0, 2})
+			if form <= 2 {
+				r = append(r, inst{"iface", n, form, 0, 2})
+			}
 		}
 		r = append(r, inst{"counter", n, 1, 0, 2}, inst{"counter", n, 2, 0, 2}, inst{"host", n, 0, 0, 2}, inst{"interps", n, 0, 0, 1})
 	}
-	r = append(r, inst{"privsel", 1, 0, 0, 2}, inst{"privsel", 1, 1, 0, 2})
+	r = append(r, inst{"privsel", 1, 0, 0, 2}, inst{"privsel", 1, 1, 0, 2}, inst{"iface", 1, 3, 0, 2})
 	return r
 }
 
@@ -329,6 +332,8 @@ func trigger(in inst) string {
 	switch {
 	case in.T == "privsel" && in.N >= 2:
 		return `template "private channels in the same select statement", n >= 2`
+	case in.T == "iface" && in.K == 3:
+		return `template iface n=1, the function called as argument returns the received value directly (return <-c)`
 	case in.T == "privsel" && in.K == 1:
 		return `template privsel n=1, value of the send case computed inside the comm clause (case ch <- expr)`
 	case in.T == "counter" && in.K == 2 && in.N >= 2, in.T == "rebind" && in.K == 1 && in.N >= 2, in.T == "pipeline" && in.N == 1 && in.K >= 2:
@@ -471,7 +476,7 @@ func run(c *fw.Ctx) error {
 		// quick: every instance, fewer repetitions; the select template and the templates
 		// with function literals get more
 		reps := c.Pick(8, 200)
-		if c.Quick() && (mi.I.T == "privsel" || (mi.I.T == "counter" && mi.I.K == 2) || mi.I.T == "host" || mi.I.T == "pool") {
+		if c.Quick() && (mi.I.T == "privsel" || (mi.I.T == "counter" && mi.I.K == 2) || mi.I.T == "host" || mi.I.T == "pool" || mi.I.T == "iface") {
 			reps = 20
 		}
 		rjobs = append(rjobs, job{I: mi.I, Reps: reps, Procs: []int{4, 16, 2, 1}, Seed: c.Seed*104729 + int64(len(rjobs))})
